@@ -68,7 +68,8 @@ def __scientific_printer(value: float, error: float, latex=False) -> str:
         return "inf {} inf".format(pm)
 
     # Find order of magnitude
-    order = m.floor(m.log10(abs(value)))
+    # (taken from the uncertainty when the value is exactly 0)
+    order = m.floor(m.log10(abs(value))) if value != 0 else m.floor(m.log10(abs(error)))
     if order == 0:
         return __default_printer(value, error, latex)
 
